@@ -54,6 +54,9 @@ TRANSFORMS = {
     "affine": lambda e: np.float32(3.0) * e + np.float32(1.0),
     "arctan": lambda e: np.arctan(e),
     "expm": lambda e: np.exp(e / np.float32(4.0)),
+    # double-precision explanations whose distinct values are closer than the float32 resolution (scores with a large
+    # common offset): the ranking is still unique, a cast to float32 before the argsort would create ties
+    "f64_tiny": lambda e: 1.0 + 1e-9 * e.astype(np.float64),
 }
 
 BASE_FUNS = {
@@ -61,6 +64,9 @@ BASE_FUNS = {
     "neg": lambda x: np.float32(0.25) - x,
     "roll": lambda x: np.roll(x, 1, axis=0),
     "carr": lambda x: np.full_like(x, 0.75),
+    # "persist": the function hands out ONE pre-computed array that outlives the calls (run_impl builds the closure and
+    # lets an Insertion and a first call use it before the call that is compared); values as below
+    "persist": lambda x: x * np.float32(0.5) + np.float32(0.125),
 }
 
 
@@ -156,7 +162,7 @@ def gen_case(rng, tier):
     # monotone transformation of the explanations (no channel axis: the code ranks channel MEANS, which only an affine
     # map preserves — with a channel axis only the affine one is used)
     r = rng.random()
-    case["transform"] = None if r < 0.65 else (rng.choice(sorted(TRANSFORMS)) if ec is None else "affine")
+    case["transform"] = None if r < 0.65 else (rng.choice(sorted(TRANSFORMS)) if ec is None else rng.choice(["affine", "f64_tiny"]))
     return case
 
 
@@ -244,7 +250,7 @@ def impl_explanations(case, es):
     tr = case.get("transform")
     if tr is None:
         return es
-    out = np.asarray(TRANSFORMS[tr](es), dtype=np.float32)
+    out = np.asarray(TRANSFORMS[tr](es), dtype=np.float64 if tr == "f64_tiny" else np.float32)
     flat = out.reshape(len(out), -1) if case["echan"] is None else out.mean(-1).reshape(len(out), -1)
     for row in flat:
         if len(set(row.tolist())) != len(row):
@@ -268,6 +274,11 @@ def run_impl(case):
         model = fam.fquad_tf_module(case["params"], case["shape"])
     b = case["baseline"]
     baseline = b["const"] if "const" in b else BASE_FUNS[b["fun"]]
+    persistent = None
+    if b.get("fun") == "persist":
+        persistent = np.asarray(BASE_FUNS["persist"](xs), dtype=np.float32)
+        pristine = persistent.tobytes()
+        baseline = lambda inputs: persistent                      # noqa: E731
     cls = Deletion if case["mode"] == "deletion" else Insertion
     op = case.get("operator", "none")
     if op == "none":
@@ -286,6 +297,13 @@ def run_impl(case):
     metric = cls(model, xs, ts, batch_size=case["bs"], baseline_mode=baseline, steps=case["steps"],
                  max_percentage_perturbed=case["pct"], operator=operator)
     es = impl_explanations(case, es)
+    if persistent is not None:
+        # history: an Insertion sharing the callable ran before, and the object under test was already called once
+        Insertion(model, xs, ts, batch_size=case["bs"], baseline_mode=baseline, steps=case["steps"],
+                  max_percentage_perturbed=case["pct"], operator=operator).detailed_evaluate(es)
+        metric.detailed_evaluate(es)
+        if persistent.tobytes() != pristine:
+            raise AssertionError("the array returned by the user's baseline function was modified")
     d = metric.detailed_evaluate(es)
     keys = [int(k) for k in d.keys()]
     vals = [float(v) for v in d.values()]
